@@ -1,0 +1,488 @@
+//! Verification hook for the concurrent atom-interning protocol (cargo feature `verif`).
+//!
+//! Nothing in here is active unless one of the `atom_race_*` functions is running: the protocol
+//! points compiled into `AtomTable::build_with` (`atom_point`) return at once for every thread
+//! that is not a participant of such a run.
+//!
+//! Three ways of running `N` threads that intern scripted texts on a FRESH global atom table with
+//! a chosen (tiny) initial block size:
+//! * [`atom_race_scheduled`]: a cooperative scheduler lets exactly one participant run from one
+//!   protocol point to the next, in the order given by a schedule (then round-robin); the
+//!   sequence of (thread, point) actually granted is returned, so the run can be replayed
+//!   step by step on a model;
+//! * [`atom_race_free`]: real OS-thread concurrency, optionally perturbed by `yield_now()` / short
+//!   spins at the protocol points;
+//! * [`atom_race_machines`]: as `free`, but every thread builds its own `Machine` and creates the
+//!   atoms by running `atom_codes/2` queries.
+#![allow(missing_docs)]
+
+use std::cell::Cell;
+use std::panic::{AssertUnwindSafe, catch_unwind};
+use std::sync::atomic::{AtomicU32, AtomicU8, AtomicUsize, Ordering};
+use std::sync::{Arc, Barrier, Condvar, Mutex};
+use std::time::{Duration, Instant};
+
+use crate::atom_table::{Atom, AtomTable};
+
+/// protocol points of `AtomTable::build_with`
+pub(crate) const P_IDLE: u8 = 0;
+pub(crate) const P_READ_INNER: u8 = 1;
+pub(crate) const P_READ_TABLE: u8 = 2;
+pub(crate) const P_LOOKUP: u8 = 3;
+pub(crate) const P_LOCK: u8 = 4;
+pub(crate) const P_RECHECK: u8 = 5;
+pub(crate) const P_ALLOC: u8 = 6;
+pub(crate) const P_PUBLISH_INNER: u8 = 7;
+pub(crate) const P_WRITE: u8 = 8;
+pub(crate) const P_PUBLISH: u8 = 9;
+pub(crate) const P_UNLOCK: u8 = 10;
+
+const MODE_OFF: u8 = 0;
+const MODE_SCHED: u8 = 1;
+const MODE_FREE: u8 = 2;
+
+static MODE: AtomicU8 = AtomicU8::new(MODE_OFF);
+static INIT_SIZE: AtomicUsize = AtomicUsize::new(0);
+static YIELD_MASK: AtomicU32 = AtomicU32::new(0);
+static GROWTHS: AtomicUsize = AtomicUsize::new(0);
+/// only one race run at a time per process
+static RUN_LOCK: Mutex<()> = Mutex::new(());
+
+thread_local! {
+    static TID: Cell<usize> = const { Cell::new(usize::MAX) };
+    static RNG: Cell<u64> = const { Cell::new(0x9E3779B97F4A7C15) };
+}
+
+struct Sched {
+    /// per participant: 0 = running, 1 = parked at a point, 2 = finished
+    state: Vec<u8>,
+    turn: Option<usize>,
+    trace: Vec<(usize, u8)>,
+}
+
+static SCHED: Mutex<Option<Sched>> = Mutex::new(None);
+static CV: Condvar = Condvar::new();
+
+/// The initial block size of a new atom table (`default` unless a race run set another one).
+pub(crate) fn atom_init_size(default: usize) -> usize {
+    match INIT_SIZE.load(Ordering::SeqCst) {
+        0 => default,
+        n => n,
+    }
+}
+
+/// Is the calling thread a participant of a scheduled run (the lock is then taken by polling)?
+#[inline]
+pub(crate) fn atom_scheduled() -> bool {
+    TID.with(|t| t.get()) != usize::MAX && MODE.load(Ordering::SeqCst) == MODE_SCHED
+}
+
+/// Called immediately before each atomic action of the interning protocol.
+#[inline]
+pub(crate) fn atom_point(p: u8) {
+    let tid = TID.with(|t| t.get());
+    if tid == usize::MAX {
+        return;
+    }
+    atom_point_slow(tid, p)
+}
+
+fn atom_point_slow(tid: usize, p: u8) {
+    if p == P_PUBLISH_INNER {
+        GROWTHS.fetch_add(1, Ordering::SeqCst);
+    }
+    match MODE.load(Ordering::SeqCst) {
+        MODE_SCHED => {
+            let mut g = SCHED.lock().unwrap_or_else(|e| e.into_inner());
+            if let Some(s) = g.as_mut() {
+                s.state[tid] = 1;
+            } else {
+                return;
+            }
+            CV.notify_all();
+            loop {
+                match g.as_ref() {
+                    Some(s) if s.turn == Some(tid) => break,
+                    Some(_) => {}
+                    None => return,
+                }
+                g = CV.wait(g).unwrap_or_else(|e| e.into_inner());
+            }
+            let s = g.as_mut().unwrap();
+            s.turn = None;
+            s.state[tid] = 0;
+            s.trace.push((tid, p));
+        }
+        MODE_FREE => {
+            if YIELD_MASK.load(Ordering::Relaxed) & (1u32 << p) != 0 {
+                let r = RNG.with(|c| {
+                    let mut x = c.get();
+                    x ^= x << 13;
+                    x ^= x >> 7;
+                    x ^= x << 17;
+                    c.set(x);
+                    x
+                });
+                match r % 4 {
+                    0 => std::thread::yield_now(),
+                    1 => {
+                        for _ in 0..(r >> 8) % 200 {
+                            std::hint::spin_loop();
+                        }
+                    }
+                    _ => {}
+                }
+            }
+        }
+        _ => {}
+    }
+}
+
+fn hex(b: &[u8]) -> String {
+    let mut s = String::with_capacity(b.len() * 2);
+    for x in b {
+        s.push_str(&format!("{:02x}", x));
+    }
+    if s.is_empty() { "-".into() } else { s }
+}
+
+/// One completed call: the text, the atom returned, the text read back at once.
+struct Done {
+    text: String,
+    atom: Atom,
+    back: String,
+}
+
+fn atom_desc(tbl: &AtomTable, a: Atom) -> String {
+    if a.is_inlined() {
+        "i".into()
+    } else {
+        let n = tbl.verif_static_count() as u64;
+        if a.flat_index() < n {
+            "s".into()
+        } else {
+            format!("d{}", a.flat_index() - n)
+        }
+    }
+}
+
+/// `full`: list every index entry; otherwise only those whose text occurs in a script (the
+/// aggregate `entries` / `dups` / `sum` always cover the whole index).
+fn report(tbl: &AtomTable, results: &[Result<Vec<Done>, String>], full: bool) -> String {
+    let mut ths: Vec<String> = Vec::new();
+    let mut wanted: std::collections::HashSet<Vec<u8>> = std::collections::HashSet::new();
+    for (i, r) in results.iter().enumerate() {
+        match r {
+            Err(msg) => ths.push(format!("T{}=PANIC({})", i, msg)),
+            Ok(ds) => {
+                let mut items: Vec<String> = Vec::new();
+                for d in ds {
+                    let mut it = format!("{}:{}", hex(d.text.as_bytes()), atom_desc(tbl, d.atom));
+                    if d.back != d.text {
+                        it.push_str(&format!("!early={}", hex(d.back.as_bytes())));
+                    }
+                    // read back again now, after all growth
+                    let late = d.atom.as_str().to_string();
+                    if late != d.text {
+                        it.push_str(&format!("!late={}", hex(late.as_bytes())));
+                    }
+                    wanted.insert(d.text.as_bytes().to_vec());
+                    items.push(it);
+                }
+                ths.push(format!("T{}={}", i, items.join(",")));
+            }
+        }
+    }
+    let (cap, used) = tbl.verif_block_stats();
+    let n = tbl.verif_static_count() as u64;
+    let entries = tbl.verif_dump();
+    let mut seen: std::collections::HashSet<&[u8]> = std::collections::HashSet::new();
+    let mut dups = 0usize;
+    let mut sum = 0usize;
+    for (_, text) in entries.iter() {
+        if !seen.insert(text.as_slice()) {
+            dups += 1;
+        }
+        sum += (8 + text.len()).next_multiple_of(8);
+    }
+    let dump: Vec<String> = entries
+        .iter()
+        .filter(|(_, text)| full || wanted.contains(text))
+        .map(|(idx, text)| format!("{}:{}", idx.wrapping_sub(n), hex(text)))
+        .collect();
+    format!(
+        "{} # cap={},used={},vers={},lock={},entries={},dups={},sum={},tbl={}",
+        ths.join(";"),
+        cap,
+        used,
+        GROWTHS.load(Ordering::SeqCst) + 1,
+        if tbl.verif_lock_free() { 0 } else { 1 },
+        entries.len(),
+        dups,
+        sum,
+        dump.join(",")
+    )
+}
+
+fn panic_msg(e: Box<dyn std::any::Any + Send>) -> String {
+    let m = if let Some(s) = e.downcast_ref::<String>() {
+        s.clone()
+    } else if let Some(s) = e.downcast_ref::<&str>() {
+        s.to_string()
+    } else {
+        "?".into()
+    };
+    m.chars().take(100).collect()
+}
+
+/// Which of `texts` are static atoms (members of the build-time table)?  Needs no table.
+pub fn atom_static_texts(texts: &[String]) -> Vec<bool> {
+    texts
+        .iter()
+        .map(|t| crate::atom_table::verif_is_static_text(t))
+        .collect()
+}
+
+fn fresh_table(init_size: usize) -> Result<Arc<AtomTable>, String> {
+    if AtomTable::verif_global_alive() {
+        return Err("ERR live-table".into());
+    }
+    INIT_SIZE.store(init_size, Ordering::SeqCst);
+    GROWTHS.store(0, Ordering::SeqCst);
+    let t = AtomTable::new().map_err(|_| "ERR alloc".to_string());
+    INIT_SIZE.store(0, Ordering::SeqCst);
+    t
+}
+
+/// Runs `scripts.len()` threads on a fresh global atom table whose first block has `init_size`
+/// bytes; thread `i` interns `scripts[i]` in order through `AtomTable::build_with`.  Exactly one
+/// thread runs at a time, from one protocol point to the next; the next thread is taken from
+/// `schedule` (entries naming a thread that is finished are skipped), then round-robin.
+/// Returns `"<trace> | <report>"`: the trace is the sequence `tid:point` of granted steps.
+/// Fails with `ERR live-table` if an atom table (a `Machine`) is alive in the process.
+pub fn atom_race_scheduled(init_size: usize, scripts: Vec<Vec<String>>, schedule: &[usize]) -> String {
+    let _run = RUN_LOCK.lock().unwrap_or_else(|e| e.into_inner());
+    let tbl = match fresh_table(init_size) {
+        Ok(t) => t,
+        Err(e) => return e,
+    };
+    let n = scripts.len();
+    *SCHED.lock().unwrap_or_else(|e| e.into_inner()) = Some(Sched {
+        state: vec![0; n],
+        turn: None,
+        trace: Vec::new(),
+    });
+    MODE.store(MODE_SCHED, Ordering::SeqCst);
+    let mut handles = Vec::new();
+    for (i, script) in scripts.into_iter().enumerate() {
+        let tbl = tbl.clone();
+        handles.push(std::thread::spawn(move || {
+            TID.with(|t| t.set(i));
+            let r = catch_unwind(AssertUnwindSafe(|| {
+                let mut out = Vec::new();
+                for text in script {
+                    atom_point(P_IDLE);
+                    let atom = AtomTable::build_with(&tbl, &text);
+                    let back = atom.as_str().to_string();
+                    out.push(Done { text, atom, back });
+                }
+                out
+            }));
+            TID.with(|t| t.set(usize::MAX));
+            let mut g = SCHED.lock().unwrap_or_else(|e| e.into_inner());
+            if let Some(s) = g.as_mut() {
+                s.state[i] = 2;
+            }
+            CV.notify_all();
+            drop(g);
+            r.map_err(panic_msg)
+        }));
+    }
+    // coordinator
+    let deadline = Instant::now() + Duration::from_secs(120);
+    let mut pos = 0usize;
+    let mut rr = 0usize;
+    let mut hang = false;
+    loop {
+        let mut g = SCHED.lock().unwrap_or_else(|e| e.into_inner());
+        loop {
+            let s = g.as_ref().unwrap();
+            if s.turn.is_none() && s.state.iter().all(|&x| x != 0) {
+                break;
+            }
+            if Instant::now() > deadline {
+                hang = true;
+                break;
+            }
+            g = CV
+                .wait_timeout(g, Duration::from_millis(200))
+                .unwrap_or_else(|e| e.into_inner())
+                .0;
+        }
+        if hang {
+            break;
+        }
+        let s = g.as_mut().unwrap();
+        if s.state.iter().all(|&x| x == 2) {
+            break;
+        }
+        let mut next = None;
+        while pos < schedule.len() {
+            let c = schedule[pos];
+            pos += 1;
+            if c < n && s.state[c] == 1 {
+                next = Some(c);
+                break;
+            }
+        }
+        let next = match next {
+            Some(c) => c,
+            None => {
+                let mut c = rr % n;
+                while s.state[c] != 1 {
+                    c = (c + 1) % n;
+                }
+                rr = c + 1;
+                c
+            }
+        };
+        s.turn = Some(next);
+        CV.notify_all();
+    }
+    if hang {
+        MODE.store(MODE_OFF, Ordering::SeqCst);
+        // release whatever is parked; the run is void
+        *SCHED.lock().unwrap_or_else(|e| e.into_inner()) = None;
+        CV.notify_all();
+        for h in handles {
+            let _ = h.join();
+        }
+        return "ERR hang".into();
+    }
+    let results: Vec<Result<Vec<Done>, String>> = handles
+        .into_iter()
+        .map(|h| h.join().unwrap_or_else(|e| Err(panic_msg(e))))
+        .collect();
+    MODE.store(MODE_OFF, Ordering::SeqCst);
+    let trace = SCHED
+        .lock()
+        .unwrap_or_else(|e| e.into_inner())
+        .take()
+        .map(|s| s.trace)
+        .unwrap_or_default();
+    let tr: Vec<String> = trace.iter().map(|(t, p)| format!("{}:{}", t, p)).collect();
+    format!("{} | {}", tr.join(" "), report(&tbl, &results, true))
+}
+
+/// As [`atom_race_scheduled`] but with real concurrency: all threads start together (barrier) and
+/// run freely; at the protocol points whose bit is set in `yield_mask` a thread pseudo-randomly
+/// (per-thread generator seeded from `seed`) yields, spins briefly, or goes on.  Returns the report.
+pub fn atom_race_free(init_size: usize, scripts: Vec<Vec<String>>, yield_mask: u32, seed: u64) -> String {
+    let _run = RUN_LOCK.lock().unwrap_or_else(|e| e.into_inner());
+    let tbl = match fresh_table(init_size) {
+        Ok(t) => t,
+        Err(e) => return e,
+    };
+    let n = scripts.len();
+    YIELD_MASK.store(yield_mask, Ordering::SeqCst);
+    MODE.store(MODE_FREE, Ordering::SeqCst);
+    let barrier = Arc::new(Barrier::new(n));
+    let mut handles = Vec::new();
+    for (i, script) in scripts.into_iter().enumerate() {
+        let tbl = tbl.clone();
+        let barrier = barrier.clone();
+        handles.push(std::thread::spawn(move || {
+            TID.with(|t| t.set(i));
+            RNG.with(|c| c.set((seed ^ 0x9E3779B97F4A7C15).wrapping_mul(2 * i as u64 + 1) | 1));
+            barrier.wait();
+            let r = catch_unwind(AssertUnwindSafe(|| {
+                let mut out = Vec::new();
+                for text in script {
+                    atom_point(P_IDLE);
+                    let atom = AtomTable::build_with(&tbl, &text);
+                    let back = atom.as_str().to_string();
+                    out.push(Done { text, atom, back });
+                }
+                out
+            }));
+            TID.with(|t| t.set(usize::MAX));
+            r.map_err(panic_msg)
+        }));
+    }
+    let results: Vec<Result<Vec<Done>, String>> = handles
+        .into_iter()
+        .map(|h| h.join().unwrap_or_else(|e| Err(panic_msg(e))))
+        .collect();
+    MODE.store(MODE_OFF, Ordering::SeqCst);
+    report(&tbl, &results, true)
+}
+
+/// As [`atom_race_free`], but thread `i` builds its own `Machine` (the library bootstrap itself
+/// interns thousands of atoms concurrently, across many growths of the tiny table) and creates
+/// each atom of its script by running `atom_codes(A, Codes), atom_length(A, L)`; the atom the
+/// machine created is then fetched with `build_with` (a lookup hit) and its text read back.
+/// An item gets `!q=…` appended if the query did not answer with the expected atom text / length.
+pub fn atom_race_machines(init_size: usize, scripts: Vec<Vec<String>>, yield_mask: u32, seed: u64) -> String {
+    use crate::machine::lib_machine::{LeafAnswer, Term};
+    let _run = RUN_LOCK.lock().unwrap_or_else(|e| e.into_inner());
+    let tbl = match fresh_table(init_size) {
+        Ok(t) => t,
+        Err(e) => return e,
+    };
+    let n = scripts.len();
+    YIELD_MASK.store(yield_mask, Ordering::SeqCst);
+    MODE.store(MODE_FREE, Ordering::SeqCst);
+    let barrier = Arc::new(Barrier::new(n));
+    let mut handles = Vec::new();
+    for (i, script) in scripts.into_iter().enumerate() {
+        let tbl = tbl.clone();
+        let barrier = barrier.clone();
+        handles.push(std::thread::spawn(move || {
+            TID.with(|t| t.set(i));
+            RNG.with(|c| c.set((seed ^ 0x9E3779B97F4A7C15).wrapping_mul(2 * i as u64 + 1) | 1));
+            barrier.wait();
+            let r = catch_unwind(AssertUnwindSafe(|| {
+                let mut machine = crate::machine::config::MachineBuilder::default().build();
+                let mut out = Vec::new();
+                for text in script {
+                    let codes: Vec<String> = text.chars().map(|c| (c as u32).to_string()).collect();
+                    let q = format!("atom_codes(A, [{}]), atom_length(A, L).", codes.join(","));
+                    let mut verdict = String::new();
+                    {
+                        let mut answers = machine.run_query(q);
+                        match answers.next() {
+                            Some(Ok(LeafAnswer::LeafAnswer { bindings, .. })) => {
+                                match bindings.get("A") {
+                                    Some(Term::Atom(s)) if *s == text => {}
+                                    other => verdict = format!("!q=A:{:?}", other),
+                                }
+                                match bindings.get("L") {
+                                    Some(Term::Integer(k))
+                                        if k.to_string() == text.chars().count().to_string() => {}
+                                    other => verdict.push_str(&format!("!q=L:{:?}", other)),
+                                }
+                            }
+                            other => verdict = format!("!q={:?}", other.map(|r| r.is_ok())),
+                        }
+                    }
+                    let atom = AtomTable::build_with(&tbl, &text);
+                    let mut back = atom.as_str().to_string();
+                    if !verdict.is_empty() {
+                        back = format!("{}{}", back, verdict);
+                    }
+                    out.push(Done { text, atom, back });
+                }
+                drop(machine);
+                out
+            }));
+            TID.with(|t| t.set(usize::MAX));
+            r.map_err(panic_msg)
+        }));
+    }
+    let results: Vec<Result<Vec<Done>, String>> = handles
+        .into_iter()
+        .map(|h| h.join().unwrap_or_else(|e| Err(panic_msg(e))))
+        .collect();
+    MODE.store(MODE_OFF, Ordering::SeqCst);
+    report(&tbl, &results, false)
+}
